@@ -36,6 +36,18 @@ def problems(rng, n, iters=(0, 6, 12, 20), pops=(5, 8, 12)):
                     "pen": rng.random() < 0.4, "pop": rng.choice(pops), "iters": rng.choice(iters)})
     return out
 
+def tie_problems(q):
+    """problems in which several candidates have bit-identical fitness: the optimum sits on a face or corner of the box (clamping
+    puts several candidates on exactly the same point), or the objective is piecewise constant.  Strict / non-strict comparison
+    slips of a solver only show on such ties."""
+    out = []
+    for dim, box, obj in ((1, "pos", "sphere"), (2, "pos", "sphere"), (2, "neg", "sphere"), (2, "degen", "sphere"),
+                          (1, "pos", "plateau"), (2, "sym", "plateau")):
+        for pop, iters in (((12, 30),) if q else ((12, 30), (6, 60), (25, 40))):
+            out.append({"dim": dim, "box": box, "obj": obj, "pen": False, "pop": pop, "iters": iters})
+    return out
+
+
 JOBS = int(os.environ.get("VERIF_JOBS", "12"))
 
 
@@ -77,12 +89,19 @@ def run(ctx):
                 step = dict(p)
                 step.update({"op": "Pair", "solver": s, "seed": rng.randrange(1, 2 ** 31 - 1)})
                 scripts.append([step])
+    for s in SO + MO:
+        for p in tie_problems(q):
+            for _ in range(2 if q else 4):
+                step = dict(p)
+                step.update({"op": "Pair", "solver": s, "seed": rng.randrange(1, 2 ** 31 - 1)})
+                scripts.append([step])
     ctx.assume("impl -> spec only: TLC generates no behaviours for C34, it validates every recorded run against Solver.tla; the state "
                "counts are those of the tiny design model MC_Solver, the coverage is events validated",
                "every f64 of a pair of runs is replaced by its dense rank among all f64 of that pair (order-isomorphic, exact for <= and =); NaN = -1",
                "Iter events are the entries of the returned history (the solvers offer no per-iteration callback)",
                "multi-objective solvers: `history` is compared across the pair but not required to be monotone (the crate documents it as "
                "'hypervolume or min of first objective'); domination is Deb's constrained domination with the harness's own penalties",
+               "tie problems (optimum on a face of the box, piecewise-constant objective): 6 shapes x %d seeds per solver" % (2 if q else 4),
                "problems: dimensions 1-6, boxes %s, objectives %s, optional half-space penalty, population %s, iterations %s; "
                "%d problems x %d seeds per solver, %d solvers (variants of Rao, QO-Rao and MO-BMWR counted separately)"
                % (BOXES, OBJS, list(pops), list(iters), nprob, nseed, len(SO + MO)))
